@@ -95,7 +95,7 @@ Proof. vm_compute. auto. Qed.
 Definition w_oneOf := SObj A0 (p_oneOf [SBool false]).
 Lemma oneOf_false_member_refuted :
   valid re_a w_oneOf (JNum 2%Z) = false /\ encode re_a w_oneOf (JNum 2%Z) = true /\
-  r_dev (enc re_a w_oneOf mall) = [DEV_oneOf_false].
+  r_dev (enc re_a w_oneOf mall) = [DEV_oneOf_false; DEV_error_member].
 Proof. vm_compute. auto. Qed.
 
 (* type:[integer,number] rejects 1.5 *)
